@@ -4409,8 +4409,12 @@ def unify_chunks(*args, **kwargs):
     arrays, inds = zip(*arginds)
     if all(ind is None for ind in inds):
         return {}, list(arrays)
-    if all(ind == inds[0] for ind in inds) and all(
-        a.chunks == arrays[0].chunks for a in arrays
+    if (
+        all(ind == inds[0] for ind in inds)
+        and all(a.chunks == arrays[0].chunks for a in arrays)
+        # an index repeated within one array (e.g. the diagonal "ii") still
+        # requires its axes to be chunked alike
+        and len(set(inds[0])) == len(inds[0])
     ):
         return dict(zip(inds[0], arrays[0].chunks)), arrays
 
